@@ -4,10 +4,11 @@ use std::{cell::RefCell, collections::HashMap, path::PathBuf, rc::Rc, string::To
 use crate::{
     context::CommonContext,
     instruction::operation::Operation,
-    parser::{
-        parse_iter, CodePoint, Item, Macro, ParseContext, ParseResult, Paths, Segment, SegmentType,
-    },
+    parser::{parse_iter, CodePoint, Item, Macro, ParseContext, ParseResult, Paths, Segment},
 };
+// (the unit tests below name it through `super::*`)
+#[cfg(test)]
+use crate::parser::SegmentType;
 
 use crate::instruction::InstructionOps;
 use failure::{bail, Error};
@@ -90,20 +91,14 @@ pub fn build_pass_0(
         messages: Rc::new(RefCell::new(parsed.messages)),
     };
 
+    // macros are called in data and EEPROM segments too (`.macro var` / `.byte @0` / `.endm`)
     for segment in parsed.segments {
-        match segment.t {
-            SegmentType::Data | SegmentType::Eeprom => {
-                context.add_segment(segment.clone());
-            }
-            SegmentType::Code => {
-                context.add_segment(Segment {
-                    address: segment.address,
-                    t: segment.t,
-                    items: vec![],
-                });
-                pass0_internal(segment.clone(), &context, &parsed.macroses, 0)?;
-            }
-        }
+        context.add_segment(Segment {
+            address: segment.address,
+            t: segment.t,
+            items: vec![],
+        });
+        pass0_internal(segment.clone(), &context, &parsed.macroses, 0)?;
     }
 
     Ok(context.as_pass0_result())
@@ -150,16 +145,12 @@ fn pass0_internal(
                         }
                         pass0_internal(segments[0].clone(), context, macroses, depth + 1)?;
                         for segment in segments.iter().skip(1) {
-                            if segment.t == SegmentType::Code {
-                                context.add_segment(Segment {
-                                    address: segment.address,
-                                    t: segment.t,
-                                    items: vec![],
-                                });
-                                pass0_internal(segment.clone(), context, macroses, depth + 1)?;
-                            } else {
-                                context.add_segment(segment.clone());
-                            }
+                            context.add_segment(Segment {
+                                address: segment.address,
+                                t: segment.t,
+                                items: vec![],
+                            });
+                            pass0_internal(segment.clone(), context, macroses, depth + 1)?;
                         }
                     }
                 }
@@ -183,10 +174,16 @@ fn macro_expand(
     context: &Pass0Context,
     macroses: &HashMap<String, Vec<(CodePoint, String)>>,
 ) -> Result<Vec<Segment>, Error> {
+    // the body starts in the segment the call is written in
+    let (current_address, current_t) = {
+        let current_segment = context.last_segment().unwrap();
+        let current_segment = current_segment.borrow();
+        (current_segment.address, current_segment.t)
+    };
     let segments = Rc::new(RefCell::new(vec![Rc::new(RefCell::new(Segment {
         items: vec![],
-        t: SegmentType::Code,
-        address: context.last_segment().unwrap().borrow().address,
+        t: current_t,
+        address: current_address,
     }))]));
     if let Some(macro_body) = macroses.get(macro_name) {
         let macro_body = if !ops.is_empty() {
